@@ -51,6 +51,10 @@ def register(op):
             return c.is_connected
         if k == 1:
             shape = [len(r) for r in c.pair_table]
+            try:                          # the loop index is computed even when there is no position
+                c.get_loop_index((0, 0))
+            except IndexError:
+                pass
             return [[c.get_loop_index((si, di)) for di in range(n)] for si, n in enumerate(shape)]
         if k == 2:
             return [list(x) for x in c.exterior_domains]
@@ -113,6 +117,59 @@ def register(op):
         if show(c) != before or before != [list(seq), list(sst)]:
             return Err("Modified")
         return [[[i, show(o)] for i, o in zip(ids, first)], same]
+
+    @op("cx_split_hist")
+    def _(a):
+        """complexes made beforehand, the complex to split, split() twice; every object
+        that ever appears is held until the end (no garbage collection in between)"""
+        from valfmt import Err
+        pre, me = a
+        fresh()
+        names = [n for item in pre + [me] for n in item[0]]
+        _, keep = domains(names)
+        known = []
+
+        def num(o):
+            for i, k in enumerate(known):
+                if k is o:
+                    return i
+            known.append(o)
+            return len(known) - 1
+
+        def make(item):
+            seq, sst, nm = item
+            dseq = [n if n == "+" else keep[n] for n in seq]
+            try:
+                o = bc.ComplexS(dseq, list(sst)) if nm is None else bc.ComplexS(dseq, list(sst), nm)
+            except Exception as e:
+                ex = getattr(e, "existing", None)
+                if ex is not None:
+                    num(ex)               # stays alive through the caught exception in Python too
+                return Err(type(e).__name__)
+            return num(o)
+
+        def run(c):
+            ys, err = [], None
+            g = c.split()
+            while True:
+                try:
+                    ys.append(num(next(g)))
+                except StopIteration:
+                    break
+                except Exception as e:
+                    err = Err(type(e).__name__)
+                    break
+            return [ys, err]
+
+        outs = [make(item) for item in pre]
+        o = make(me)
+        if isinstance(o, Err):
+            runs = None
+        else:
+            c = known[o]
+            runs = [attempt(lambda: run(c)), attempt(lambda: run(c))]
+        objs = [[i, show(k)] for i, k in enumerate(known)]
+        return [outs, o, runs, objs]
 
     @op("toggle")
     def _(a):
